@@ -31,7 +31,7 @@ CHECKS = {
         "design": "DESIGN.md §2 C09",
     },
     "C10": {
-        "technique": "static analysis: call-path counting (exactly-once Tree::edit), provenance of every point handed to Tree::edit relative to the splice (buffer reads before/after), single-writer rule; must-pass-through of the re-parse; edit description passed on unmodified",
+        "technique": "static analysis: call-path counting (exactly-once Tree::edit), provenance of every point handed to Tree::edit relative to the splice (buffer reads before/after), single-writer rule; must-pass-through of the re-parse; edit description passed on unmodified; every field of Root rewritten by the edit (no stale cache)",
         "text": "Static protocol check of the edit description handed to tree-sitter: on every path old tree and text are updated by the same edit exactly once, positions are computed against the right text version (dominance relative to the splice), and nobody else can mutate the text behind the tree. A necessary condition of the behavioural property; tree-sitter itself is trusted. Also decided: every path after perform_edit re-parses; no function on the way to do_edit rewrites a field of the Edit.",
         "note": "Trusted: tree-sitter's incremental parser given a correct InputEdit; MIR construction.",
         "design": "DESIGN.md §2 C10",
@@ -67,7 +67,7 @@ CHECKS = {
         "design": "DESIGN.md §2 C18",
     },
     "C20": {
-        "technique": "static analysis: impl-table uniformity rules over all Language impls (recogniser funnel, expando<->pre-processing pairing, exhaustive language table); unit discipline of substring indices (character counts vs byte lengths); literal-coverage rule of the template scanner loop",
+        "technique": "static analysis: impl-table uniformity rules over all Language impls (recogniser funnel, expando<->pre-processing pairing, exhaustive language table); unit discipline of substring indices (character counts vs byte lengths); literal-coverage rule of the template scanner loop; sign test before index casts; validation dominates every accepting return of the recogniser",
         "text": "Static uniformity argument over the impl tables: every language ends in the one meta-variable recogniser, overrides expando_char iff it pre-processes patterns with the shared routine and its own expando, wrappers forward, the language table is exhaustive. The An+B/substring notations are value-level and declined. Of the small notations only the unit discipline of `substring` is decided (character counts end to end); the An+B arithmetic and the sigil-prefix scanners stay value level (three seeded changes there are deliberately not caught).",
         "note": "Trusted: compiler impl tables; tree-sitter grammars accept the expando character as an identifier character.",
         "design": "DESIGN.md §2 C20",
